@@ -37,7 +37,7 @@ def strategy(tier):
     @st.composite
     def case(draw):
         c = draw(lossgen.loss_case(kinds=["Square", "Square", "Normal", "Poisson"], weights=False, target_param=None,
-                                   max_states=3, n_times=(4, 8), families=("chain", "epidemic"), allow_time=False))
+                                   max_states=3, n_times=(4, 8), families=("chain", "epidemic"), allow_time=False, catalogue=1))
         if isinstance(c["spread"], list):
             c["spread"] = None               # create_loss only forwards a scalar sigma
         m = c["model"]
@@ -53,15 +53,19 @@ def strategy(tier):
         for q in inferred:
             v = c["setup"]["theta"][m["params"].index(q)] if q in m["params"] else c["setup"]["x0"][names.index(q)]
             fam = draw(st.sampled_from(["unif", "unif", "gamma", "norm"]))
-            log = draw(st.booleans()) if fam == "unif" else False
+            if v <= 0:                       # signed quantities (FitzHugh states): no gamma prior, no log scale
+                fam = "norm" if fam == "gamma" else fam
+            log = draw(st.booleans()) if (fam == "unif" and v > 0) else False
             if fam == "unif":
-                lo, hi = v * draw(S.fl(0.4, 0.8, 3)), v * draw(S.fl(1.3, 2.5, 3))
+                lo, hi = sorted([v * draw(S.fl(0.4, 0.8, 3)), v * draw(S.fl(1.3, 2.5, 3))])
+                if lo == hi:
+                    lo, hi = lo - 0.1, hi + 0.1
                 pars = [S.sig(math.log10(lo), 5), S.sig(math.log10(hi), 5)] if log else [S.sig(lo, 4), S.sig(hi, 4)]
             elif fam == "gamma":
                 shape = draw(st.sampled_from([20.0, 40.0]))
                 pars = [shape, S.sig(shape / v, 5)]
             else:
-                pars = [S.sig(v, 4), S.sig(0.08 * v, 3)]
+                pars = [S.sig(v, 4), S.sig(0.08 * abs(v) + (0.02 if v == 0 else 0.0), 3)]
             priors.append({"name": q, "dist": fam, "pars": pars, "log": log})
         G = draw(st.integers(1, 3))
         sched = draw(st.sampled_from(["list", "quantile", "quantile-inf"])) if G > 1 else "single"
